@@ -7,23 +7,16 @@ from sa.model import Program, AnalysisError, PKG_REL, repo_root
 from sa import props
 
 def viol(root, pids):
+    from sa import report
     out = {}
     P0 = Program(root)
     for pid in pids:
-        try:
-            P = P0
-            s = set()
-            for rule in props.PROPS[pid]["rules"]:
-                r = rule(P) if not isinstance(rule, tuple) else rule[0](P, **rule[1])
-                for rr in r if isinstance(r, list) else [r]:
-                    if len(rr.obs) < rr.min_instances:
-                        s.add(("ANALYSIS-ERROR", rr.rule, "below min instances", ""))
-                    for o in rr.obs:
-                        if not o.ok:
-                            s.add((o.rule if not o.undecided else 'UNDECIDED:' + o.rule, o.file, o.function, o.construct))
-            out[pid] = s
-        except AnalysisError as e:
-            out[pid] = {("ANALYSIS-ERROR", str(e)[:200], "", "")}
+        s = set()
+        for rr in report.run_rules(P0, props.PROPS[pid]["rules"]):
+            for o in rr.obs:
+                if not o.ok:
+                    s.add((o.rule if not o.undecided else 'UNDECIDED:' + o.rule, o.file, o.function, o.construct))
+        out[pid] = s
     return out
 
 def main():
